@@ -25,14 +25,19 @@ SPEC_RANGES = [('plate', 0, 2**14), ('fiber', 0, 2**12), ('mjd', 50000, 50000 + 
 SPEC_SHIFT = dict(plate=50, fiber=38, mjd=24, run2d=10, line=0)
 
 
-def _impl_objid(fs, scalar):
+def _fits(fs, dtype):
+    info = np.iinfo(np.dtype(dtype))
+    return all(info.min <= v <= info.max for t in fs for v in t)
+
+
+def _impl_objid(fs, scalar, dtype='int64'):
     from pydl.pydlutils.sdss import sdss_objid
     try:
         if scalar:
             sv, rerun, run, camcol, ff, field, obj = fs[0]
             r = sdss_objid(run, camcol, field, obj, rerun=rerun, skyversion=sv, firstfield=ff)
         else:
-            a = np.array(fs, dtype=np.int64).reshape(len(fs), 7)
+            a = np.array(fs, dtype=np.int64).reshape(len(fs), 7).astype(dtype)
             r = sdss_objid(a[:, 2], a[:, 3], a[:, 5], a[:, 6], rerun=a[:, 1], skyversion=a[:, 0], firstfield=a[:, 4])
         return {'ok': [int(x) % 2**64 for x in np.atleast_1d(r)]}
     except Exception as e:
@@ -215,6 +220,11 @@ def _objid(ctx, tuples=None):
     bad = [t for k, t in tuples if _layout(t, OBJ_RANGES, OBJ_SHIFT) is None]
     for i in range(0, len(good), 257):
         cases.append({'stream': 'objid', 'kind': 'array', 'scalar': False, 'f': good[i:i + 257]})
+    # the catalogue columns these IDs are built from are stored as 16/32-bit integers
+    for j, dt in enumerate(['int32', 'int16', 'uint16', 'uint32', 'uint64', 'int32', 'int64'] * 6):
+        blk = [t for t in good[j * 53:j * 53 + 40] if _fits([t], dt)] or [t for t in good if _fits([t], dt)][:5]
+        if blk:
+            cases.append({'stream': 'objid', 'kind': 'array-' + dt, 'scalar': False, 'dtype': dt, 'f': blk})
     for j, t in enumerate(bad):
         blk = good[(7 * j) % max(1, len(good)):][:5]
         pos = j % (len(blk) + 1)
@@ -223,7 +233,7 @@ def _objid(ctx, tuples=None):
         lines.append({'p': 'C06', 'op': 'objid', 'f': c['f']})
     model = core.driver_parallel(lines)
     for c, m in zip(cases, model):
-        impl = _impl_objid(c['f'], c['scalar'])
+        impl = _impl_objid(c['f'], c['scalar'], c.get('dtype', 'int64'))
         ctx.seen(c)
         ctx.count('objid:' + c['kind'] + (':err' if 'err' in impl else ':ok'))
         if impl != m:
@@ -236,7 +246,9 @@ def _objid(ctx, tuples=None):
                             'out-of-range field not refused with ValueError: got %s' % impl, c)
         else:
             if impl != {'ok': want}:
-                ctx.violate('objid:layout', 'packed objID differs from the documented layout: got %s want %s' % (impl, want), c)
+                if 'dtype' in c:
+                    c = dict(c, f=[next((t for t, w in zip(c['f'], want) if _impl_objid([t], False, c['dtype']) != {'ok': [w]}), c['f'][0])])
+                ctx.violate('objid:layout' + (':' + c['dtype'] if c.get('dtype', 'int64') != 'int64' else ''), 'packed objID differs from the documented layout: got %s want %s' % (impl, want), c)
             else:
                 back = _impl_unobjid(want, False)
                 if back != [list(t) for t in c['f']]:
